@@ -36,7 +36,7 @@ class Spec:
         self.tier = tier
 
     def budget(self, tier):
-        return (6000, 100) if tier == 'quick' else (100_000, 1500)
+        return (12_000, 100) if tier == 'quick' else (100_000, 1500)
 
     def run_case(self, seed, replay=None):
         return W.run_case_c14(seed, replay, self.tier)
